@@ -27,3 +27,12 @@ for _f in sorted(_glob.glob(_os.path.join(_os.path.dirname(_os.path.abspath(__fi
     _ns = {}
     exec(compile(open(_f).read(), _f, "exec"), _ns)
     PROPS[_ns["ID"]] = _ns["CONFIG"]
+
+# Only properties listed in claimed.txt are registered in MANIFEST.json (edited by the lead once a check
+# has been reviewed, calibrated and shown sensitive); the others are listed as not (yet) claimed.
+_claimed = set(l.strip() for l in open(_os.path.join(_os.path.dirname(_os.path.abspath(__file__)), "claimed.txt")) if l.strip())
+for _id, _cfg in PROPS.items():
+    _cfg["claimed"] = _id in _claimed
+_all_ids = ["C%02d" % i for i in range(1, 21)]
+NOT_APPLICABLE = [{"property_id": i, "reason": "not claimed yet: the property-based check for it is still being built/calibrated (the technique applies; see DESIGN.md section 4)"}
+                  for i in _all_ids if i not in _claimed]
